@@ -29,7 +29,8 @@ package binary
 //@ pred idsWithin(v, n) = len(v.SampleIDs) == len(v.Samples) && (forall i in 0..len(v.SampleIDs) :: v.SampleIDs[i] < n)
 
 // execBinaryOperation evaluates one step (C05). hitL[o] / hitR[o]: output o was reached by a sample
-// of the left / right vector of THIS step. The table's tags (lhT, rhT) are older than the step on
+// of the left / right vector of THIS step (for the right side: whether or not the pair survives the
+// comparison filter - the ambiguity rule of C05 does not depend on the filter). The table's tags (lhT, rhT) are older than the step on
 // entry, so a tag equal to the step's timestamp means "reached in this step" (C07: no dependence
 // on earlier steps).
 //  - an output reached twice from the same side in one step is an error unless that side is the
@@ -43,6 +44,7 @@ package binary
 //@   requires[C07] tags-older-than-step: forall o in 0..len(t.outputValues) :: t.outputValues[o].lhT < lhs.T && t.outputValues[o].rhT < lhs.T
 //@   ghostvar hitL seqbool = constseq(false)
 //@   ghostvar hitR seqbool = constseq(false)
+//@   ghostvar wasR bool = false
 //@   ensures[C05,C18] step-timestamp: result1 == nil ==> result0.T == lhs.T
 //@   ensures[C05,C18] ids-index-output-series: result1 == nil ==> idsWithin(result0, len(t.outputValues))
 //@   ensures[C07] tags-not-newer-than-step: forall o in 0..len(t.outputValues) :: t.outputValues[o].lhT <= lhs.T && t.outputValues[o].rhT <= lhs.T
@@ -53,11 +55,14 @@ package binary
 //@       hitL[outputSampleID] && t.card != parser.CardManyToOne
 //@   at line "if t.card != parser.CardOneToMany && outputSample.rhT == rhs.T" assert[C05] right-sample-pairs-only-with-output-reached-this-step:
 //@       hitL[outputSampleID]
+//@   at line "if t.card != parser.CardOneToMany && outputSample.rhT == rhs.T" set wasR = hitR[outputSampleID]
+//@   at line "if t.card != parser.CardOneToMany && outputSample.rhT == rhs.T" set hitR = store(hitR, outputSampleID, true)
+//@   at line "if t.card != parser.CardOneToMany && outputSample.rhT == rhs.T" assert[C05] earlier-right-sample-of-this-step-is-seen:
+//@       wasR <==> outputSample.rhT == rhs.T
 //@   at line "t.outputValues[outputSampleID].rhSampleID = sampleID" assert[C05] right-sample-recorded-once-unless-many-side:
-//@       hitL[outputSampleID] && (t.card == parser.CardOneToMany || !hitR[outputSampleID])
-//@   at line "t.outputValues[outputSampleID].rhSampleID = sampleID" set hitR = store(hitR, outputSampleID, true)
+//@       hitL[outputSampleID] && (t.card == parser.CardOneToMany || !wasR)
 //@   at line "newManyToManyMatchError(prevSampleID, sampleID, rhBinOpSide)" assert[C05] right-duplicate-is-an-error:
-//@       hitL[outputSampleID] && hitR[outputSampleID] && t.card != parser.CardOneToMany
+//@       hitL[outputSampleID] && wasR && t.card != parser.CardOneToMany
 //@   at field:execution/binary.table.operation assert[C05] operation-gets-left-then-right: $operands[0] == t.outputValues[outputSampleID].v &&
 //@       $operands[1] == rhVal && $valueIdx == 0
 //@   at line "step.Samples = append(step.Samples, outputVal)" assert[C05] emitted-only-for-matched-pair: hitL[outputSampleID] && hitR[outputSampleID]
